@@ -83,3 +83,58 @@ func TestDeletedAccountIsGoneWithCompactAuthorization(t *testing.T) {
 		t.Errorf("alice after her account was deleted: %s, want InvalidAccessKeyId", c)
 	}
 }
+
+// parked is a store whose lookups can be held after they have fetched the account
+type parked struct {
+	store
+	hold    chan struct{}
+	fetched chan struct{}
+}
+
+func (p *parked) GetUserAccount(k string) (auth.Account, error) {
+	a, err := p.store.GetUserAccount(k)
+	if p.hold != nil {
+		p.fetched <- struct{}{}
+		<-p.hold
+	}
+	return a, err
+}
+
+// A lookup that missed the cache fetched the account and stored it after the fact. A delete (or an update) acknowledged
+// in between was overwritten by the stale account: the deleted account authenticated for a whole cache period.
+func TestLookupInFlightDoesNotUndoAnAcknowledgedDelete(t *testing.T) {
+	for _, change := range []string{"delete", "update"} {
+		p := &parked{store: store{m: map[string]auth.Account{"alice": {Access: "alice", Secret: "s1", Role: auth.RoleUser}}},
+			hold: make(chan struct{}), fetched: make(chan struct{})}
+		c := auth.NewCache(p, time.Minute, time.Minute)
+		done := make(chan struct{})
+		go func() { c.GetUserAccount("alice"); close(done) }()
+		<-p.fetched // the lookup has the old account in its hands
+		hold := p.hold
+		p.hold = nil
+		switch change {
+		case "delete":
+			if err := c.DeleteUserAccount("alice"); err != nil {
+				t.Fatal(err)
+			}
+		case "update":
+			s2 := "s2"
+			a := p.m["alice"]
+			a.Secret = s2
+			p.m["alice"] = a
+			if err := c.UpdateUserAccount("alice", auth.MutableProps{Secret: &s2}); err != nil {
+				t.Fatal(err)
+			}
+		}
+		close(hold)
+		<-done
+		got, err := c.GetUserAccount("alice")
+		if change == "delete" && err == nil {
+			t.Errorf("after the acknowledged delete the cache answers %+v", got)
+		}
+		if change == "update" && (err != nil || got.Secret != "s2") {
+			t.Errorf("after the acknowledged update of the secret the cache answers %+v, %v", got, err)
+		}
+		c.Shutdown()
+	}
+}
